@@ -270,8 +270,8 @@ int main(int argc, char **argv) {
     add_space(R, "F1", 1, kIds, true, true, 0);
     add_space(R, "F2", 2, kIds, true, true, 0);
     add_space(R, "F3", 3, kIds, true, true, 1);
-    add_space(R, "F4_ids4", 4, 4, true, false, 1);
-    add_space(R, "F4", 4, kIds, false, true, 1);
+    // the whole bound named by the property (2.44e8 lists) is cheap enough for the quick tier as well
+    add_space(R, "F4", 4, kIds, true, true, 1);
   } else {
     // Same enumeration under ASan+UBSan: full F<=2, F3 (quick: every 16th
     // chunk; thorough: all), thorough also F4 over 4 ids.
